@@ -303,6 +303,37 @@ func runC22(p *Prog, r *Report) {
 		sibs = append(sibs, s)
 	}
 	r.Floor("R2", "body compressor siblings", len(sibs), 4)
+	// the siblings assign the same Response fields: a compressor that swaps in the compressed buffer but leaves
+	// the zero-copy alias (bodyRaw) of the uncompressed body in place sends the raw bytes under Content-Encoding
+	{
+		stored := map[*ssa.Function]map[string]bool{}
+		union := map[string]bool{}
+		for _, sb := range sibs {
+			m := map[string]bool{}
+			for _, b := range sb.fn.Blocks {
+				for _, in := range b.Instrs {
+					if st, ok := in.(*ssa.Store); ok {
+						if fa, ok := st.Addr.(*ssa.FieldAddr); ok && typeNameOf(fa.X) == "Response" {
+							m[fieldName(fa.X.Type(), fa.Field)] = true
+							union[fieldName(fa.X.Type(), fa.Field)] = true
+						}
+					}
+				}
+			}
+			stored[sb.fn] = m
+		}
+		for _, sb := range sibs {
+			var missing []string
+			for f := range union {
+				if !stored[sb.fn][f] {
+					missing = append(missing, f)
+				}
+			}
+			sort.Strings(missing)
+			r.Check("R2", funcName(sb.fn)+": assigns the same Response fields as its sibling compressors", len(missing) == 0, p.Pos(sb.fn.Pos()),
+				"not assigned here but by the siblings: "+strings.Join(missing, ", ")+" - e.g. a body set with SetBodyRaw stays in bodyRaw, which Write prefers over the swapped-in compressed buffer: the raw bytes go out under the declared Content-Encoding")
+		}
+	}
 	// package each coder must reach, by the token it announces
 	wantPkg := map[string][]string{"gzip": {"/gzip"}, "deflate": {"/flate", "/zlib"}, "br": {"/brotli"}, "zstd": {"/zstd"}}
 	reachesPkg := func(f *ssa.Function, sufs []string) bool {
